@@ -283,7 +283,62 @@ pub fn run(ctx: &Ctx, rep: &mut Report) {
         Ok(())
     });
     let _ = Stats::default();
+
+    // ---- the consequence clause: whole operations on many seeds, and on seeds whose sampler streams are rare ----
+    let mut cases: Vec<PipeCase> = rare_seed_cases().into_iter().map(|(set, i)| PipeCase { set, seed: crate::gen::Seed32::RareSampler(i) }).collect();
+    let n_rare = cases.len();
+    for i in 0..u64::from(ctx.n(6000, 120_000)) {
+        cases.push(PipeCase { set: (i % 3) as u8, seed: crate::gen::Seed32::Uniform(crate::engine::hash_of(&(ctx.seed, "c15-pipe", i))) });
+    }
+    crate::engine::run_list(rep, "pipeline", &cases, check_pipeline);
+    rare_seed_maxima(rep.stats("pipeline"));
+    rep.note(format!("pipeline: {n_rare} corpus seeds with rare sampler events + {} uniform seeds", cases.len() - n_rare));
+}
+
+#[derive(Clone, Debug, Hash, serde::Serialize, serde::Deserialize)]
+pub struct PipeCase {
+    pub set: u8,
+    pub seed: crate::gen::Seed32,
+}
+
+/// key generation, public-key derivation, one signature and its verification against the reference
+pub fn check_pipeline(c: &PipeCase, st: &mut Stats) -> CheckResult {
+    let libr = crate::libapi::libs()[c.set as usize % 3];
+    let p = libr.p();
+    let xi = c.seed.bytes();
+    let (rpk, rsk) = rf::keygen_internal(&p, &xi);
+    let (pk, sk) = g("keygen_from_seed", || libr.keygen_from_seed(&xi))?;
+    st.eval();
+    st.nontrivial(c);
+    st.class(&format!("set{}", p.id));
+    if g("pk.into_bytes", || pk.to_bytes())? != rpk || g("sk.into_bytes", || sk.to_bytes())? != rsk {
+        return Err(Fail::new(format!("pipeline:keygen_deviates:set{}", p.id), format!("set {}: key generation on seed {} deviates from FIPS 204", p.id, hex::encode(xi))));
+    }
+    let dpk = g("get_public_key", || sk.public_key())?;
+    if g("pk.into_bytes", || dpk.to_bytes())? != rpk {
+        return Err(Fail::new(format!("pipeline:derived_pk_deviates:set{}", p.id), format!("set {}: the public key derived from the generated private key (seed {}) deviates from FIPS 204 pkEncode", p.id, hex::encode(xi))));
+    }
+    let rnd = [0x77u8; 32];
+    let m = &xi[..9];
+    let mut rng = TestRng::replay(&rnd);
+    let sig = match g_sign(&*sk, &mut rng, m, &[], Mode::Pure) {
+        Ok(Ok(s)) => s,
+        Ok(Err(e)) => return Err(Fail::new("pipeline:sign_err", format!("set {}: signing failed: {e}", p.id))),
+        Err(pi) => return Err(Fail::panic("sign", &pi)),
+    };
+    let (rsig, _) = rf::sign(&p, &rsk, m, &[], Mode::Pure, &rnd, 100_000).expect("reference sign");
+    if sig != rsig {
+        return Err(Fail::new(format!("pipeline:signature_deviates:set{}", p.id), format!("set {}: signature (seed {}) deviates from FIPS 204 Sign", p.id, hex::encode(xi))));
+    }
+    for (k, name) in [(&pk, "generated"), (&dpk, "derived")] {
+        if !g_verify(&**k, m, &sig, &[], Mode::Pure)? {
+            return Err(Fail::new(format!("pipeline:verify_deviates:set{}", p.id), format!("set {}: the {name} public key rejects the signature (seed {})", p.id, hex::encode(xi))));
+        }
+    }
+    Ok(())
 }
 
 /// Enumerated sweeps: replay re-runs the property deterministically (vcheck falls back to that on `None`).
-pub fn replay(_ctx: &Ctx, _sub: &str, _case: &Value) -> Option<CheckResult> { None }
+pub fn replay(_ctx: &Ctx, sub: &str, case: &Value) -> Option<CheckResult> {
+    (sub == "pipeline").then(|| check_pipeline(&from_case::<PipeCase>(case), &mut Stats::default()))
+}
